@@ -187,7 +187,7 @@ func RunSessions(behs [][]Step, tr *Trace, env Env, sum *Summary) {
 						}
 					}
 				case "Restart":
-					pan, to := guarded(func() { must(w.Restart()) }, 20*time.Second)
+					pan, to := guarded(func() { must(w.Restart()) }, 150*time.Second)
 					if strings.Contains(pan, "harness-error") {
 						panic(pan)
 					}
